@@ -22,7 +22,7 @@ RULE = ("pools of 2-4 meshes from every producer (raw containers with list/tuple
         "and their inverses, direct vertex edits; non-trivial = the history contains a merge or copy followed by an edit of another mesh than "
         "the one produced; distinct = (producers, history) hash")
 REQUIRED = {"shadow": 3000, "transform": 600, "copy": 100, "merge": 100, "inverse": 100, "normalize": 60}
-CASE_TIMEOUT = {"quick": 60.0, "thorough": 900.0}
+CASE_TIMEOUT = {"quick": 30.0, "thorough": 900.0}
 ASSUMPTIONS = ["pool meshes are built from data owned by the case (fresh arrays per producer call): aliasing with caller-owned arrays is reported as a note only",
                "a boundary mesh extracted from a volume is put in the pool without its parent volume (the statement does not speak of that pair)",
                "degenerate bounding boxes (zero largest extent) are not generated for normalize"]
